@@ -11,6 +11,7 @@ package interp
 
 import (
 	"go/types"
+	"net/url"
 	"sort"
 	"strings"
 )
@@ -186,5 +187,71 @@ func init() {
 		}
 		var cell value = dst
 		return &cell
+	}
+}
+
+// Client side of M-NET: http.NewRequest builds the request value; Client.Do
+// hands it to the client's Transport (an interpreted http.RoundTripper: the
+// repo's bandwidth monitor around a harness round tripper). Redirects, cookies,
+// timeouts and the real transport are not modelled.
+func init() {
+	externals["net/http.NewRequest"] = func(fr *frame, a []value) value {
+		i := fr.i
+		method, ok1 := a[0].(string)
+		raw, ok2 := a[1].(string)
+		if !ok1 || !ok2 {
+			panic(engineError{"http.NewRequest with a symbolic method or URL"})
+		}
+		u, err := url.Parse(raw)
+		if err != nil {
+			return tuple{(*value)(nil), i.newError(err.Error(), nil)}
+		}
+		hp := i.prog.ImportedPackage("net/http")
+		up := i.prog.ImportedPackage("net/url")
+		if hp == nil || up == nil {
+			panic(engineError{"net/http not loaded"})
+		}
+		us := zero(up.Type("URL").Type()).(structure)
+		us[i.structField("net/url", "URL", "Scheme")] = u.Scheme
+		us[i.structField("net/url", "URL", "Host")] = u.Host
+		us[i.structField("net/url", "URL", "Path")] = u.Path
+		us[i.structField("net/url", "URL", "RawQuery")] = u.RawQuery
+		var ucell value = us
+		rs := zero(hp.Type("Request").Type()).(structure)
+		rs[i.structField("net/http", "Request", "Method")] = method
+		rs[i.structField("net/http", "Request", "URL")] = &ucell
+		rs[i.structField("net/http", "Request", "Header")] = map[value]value{}
+		rs[i.structField("net/http", "Request", "Host")] = u.Host
+		rs[i.structField("net/http", "Request", "Proto")] = "HTTP/1.1"
+		if b, ok := a[2].(iface); ok && b.t != nil {
+			// the body must be an io.ReadCloser: readers that are not are
+			// wrapped (as net/http does with io.NopCloser)
+			ms := i.prog.MethodSets.MethodSet(b.t)
+			hasClose := false
+			for k := 0; k < ms.Len(); k++ {
+				if ms.At(k).Obj().Name() == "Close" {
+					hasClose = true
+				}
+			}
+			if !hasClose {
+				panic(engineError{"http.NewRequest: body without Close (wrap it in io.NopCloser in the code under test?)"})
+			}
+			rs[i.structField("net/http", "Request", "Body")] = b
+		}
+		var rcell value = rs
+		return tuple{&rcell, iface{}}
+	}
+	externals["(*net/http.Client).Do"] = func(fr *frame, a []value) value {
+		i := fr.i
+		c := (*(a[0].(*value))).(structure)
+		tr, ok := c[i.structField("net/http", "Client", "Transport")].(iface)
+		if !ok || tr.t == nil {
+			panic(engineError{"http.Client.Do without a Transport (the real network is not modelled)"})
+		}
+		res, ok := i.callMethod(tr, "RoundTrip", a[1])
+		if !ok {
+			panic(engineError{"http.Client.Do: Transport without RoundTrip"})
+		}
+		return res
 	}
 }
